@@ -58,7 +58,7 @@ Permeance(exps, T) ==
 
 (* ------------------------------ clauses of C12 --------------------------- *)
 \* p: result of get_permeance(T); ea: result of the public calculate_activation_energy
-AtExperiment(exps, T, p) == \A j \in 1..Len(exps) : (exps[j].T = T) => (~p.raise /\ p.v = exps[j].P)
+AtExperiment(exps, T, p) == \A j \in 1..Len(exps) : (exps[j].T = T) => (~p.raise /\ Eq(p.v, exps[j].P, exps[j].P))
 ArrheniusLaw(exps, T, p, ea) ==
   LET e == exps[Nearest(exps, T)]
   IN (e.T # T) =>
